@@ -2,6 +2,21 @@
 # which bounds per tier. Bounds registered here closed on the unchanged tree.
 
 CHECKS = {
+    "C01": {
+        "explanation": "bounded symbolic execution of the real commit log (New/Append/read-back) over the in-memory file system",
+        "assumptions": ["memFS models the file system (process-crash model, mmap aliases file bytes)"],
+        "groups": [
+            {"pkg": "./server/commitlog", "overlay": "commitlog", "pkgname": "commitlog",
+             "harnesses": [
+                 {"name": "VerifC01AppendRead", "quick": {"batches": 2}, "thorough": {"batches": 3},
+                  "covers": ["done"], "targets": ["commitLog).Append", "Reader).ReadMessage"]},
+                 {"name": "VerifC01Ops", "quick": {"steps": 2}, "thorough": {"steps": 3},
+                  "covers": ["done", "append", "append-set", "truncate", "reopen"], "targets": ["commitLog).Truncate", "commitLog).AppendMessageSet"]},
+                 {"name": "VerifC01LiveReader", "quick": {"msgs": 3}, "thorough": {"msgs": 4},
+                  "covers": ["done", "truncate-above-reader", "append-after-reader"], "targets": ["commitLog).Truncate"]},
+             ]},
+        ],
+    },
     "C14": {
         "explanation": "bounded symbolic execution of protocol.checkEnvelope and wrappers over all byte strings up to maxlen",
         "assumptions": [
